@@ -330,6 +330,19 @@ def standin_multi_qubit(tier, seed):
             want = cirq.Circuit(cirq.MatrixGate(u).on(qs[m]).controlled_by(*qs[:m])).unitary(qubit_order=qs)
             if not np.allclose(cirq.Circuit(ops).unitary(qubit_order=qs, qubits_that_should_be_present=qs), want, atol=1e-6):
                 R.bad("decompose_multi_controlled_rotation: the operations are not the multi-controlled gate", controls=m, matrix=u)
+    # rotations by small angles (around the helper tolerances 1e-5 / 1e-8 / 1e-9) under 1-3 controls
+    for e, g in itertools.product((1e-3, 1e-5, 2e-6, 1e-7), (cirq.X, cirq.Y, cirq.Z, cirq.H)):
+        for m in (1, 2, 3):
+            R.cases += 1
+            u = cirq.unitary(g ** e)
+            qs = cirq.LineQubit.range(m + 1)
+            try:
+                ops = cirq.decompose_multi_controlled_rotation(u, list(qs[:m]), qs[m])
+                want = cirq.unitary(cirq.ControlledGate(cirq.MatrixGate(u), num_controls=m))
+                if not np.allclose(cirq.Circuit(ops).unitary(qubit_order=qs, qubits_that_should_be_present=qs), want, rtol=0, atol=3e-8):
+                    R.bad("decompose_multi_controlled_rotation: a small rotation (or its phase) is lost (error above 3e-8)", controls=m, gate=g ** e)
+            except Exception as ex:
+                R.bad(f"decompose_multi_controlled_rotation raised {type(ex).__name__}", controls=m, gate=g ** e)
     # three-qubit and Shannon
     nq = 6 if tier == "quick" else 40
     special3 = [np.eye(8), cirq.unitary(cirq.CCX), cirq.unitary(cirq.CCZ), cirq.unitary(cirq.CSWAP), np.kron(cirq.unitary(cirq.CNOT), cirq.unitary(cirq.H)), cirq.unitary(cirq.QuantumFourierTransformGate(3)),
